@@ -459,6 +459,8 @@ class C08(Check):
                             knobs["corrupt_unparseable_dropped"] = knobs.get("corrupt_unparseable_dropped", 0) + 1
                             continue
                 op = {"kind": "burst", "term": term, "ts": ts, "data": b.hex(), "bt": bt, "tag": tag, "f": fl}
+                if not rates and kind in ("voice", "wrap"):
+                    op["call"] = txi  # a voice call transmitted whole in a run without channel faults: the transmitter's view of "a voice transmission"
                 st.append(op)
                 if rates and f.random() < rates.get("dup", 0):
                     st.append(dict(op, f=fl + ["dup"]))
@@ -555,6 +557,7 @@ class C08(Check):
                 res.fault(x)
             st = S.setdefault((op["term"], op["ts"]), {"unmatched": Counter(), "win": [], "hdr": {}, "prev": None, "after_end": True, "chain": None,
                                                        "since_end": 0, "since_start": []})
+            st["cur_call"] = op.get("call")
             ok = self._judge(res, rx, st, r, i, "+".join(op.get("f", [])) or "-")
             if ok:
                 ok = self._fresh_receiver_oracle(res, st, r, op, i)
@@ -603,6 +606,8 @@ class C08(Check):
             rx.sink.seek(0)
             rx.sink.truncate()
         evs = rx.primary.ev[n0:]
+        for _st in S.values():
+            _st["air"] = None  # the application ended the calls itself: what follows on a slot is not "a call transmitted whole" any more
         rx.log.add(rx.n, "*", "end_all", ([e[0] for e in evs], raised))
         res["evals"] += 1
         if raised:
@@ -780,6 +785,29 @@ class C08(Check):
         # 5. voice labels
         label = getattr(getattr(out, "voice_burst", None), "name", "")
         label = label[-1] if label.startswith("VoiceBurst") else "-"
+        # 5c. the transmitter's view: inside a voice call that was transmitted whole (LC header ... terminator, no channel fault in the run) every voice
+        # burst from the call's first voice-sync burst on carries the next letter -- whatever the tracker thinks the slot is doing (a tracker that gave the
+        # call up half-way labels nothing, and no other rule would notice)
+        call = st.get("cur_call")
+        air_st = st.get("air")
+        if call is None or (air_st and air_st["id"] != call):
+            st["air"] = air_st = None
+        if call is not None:
+            if cls == "vh":
+                st["air"] = air_st = air_st if air_st else {"id": call, "chain": None}
+            elif cls == "term":
+                st["air"] = air_st = None
+            elif air_st and cls == "vs":
+                if label != "A":
+                    V("C08.5 voice-labels", "whole-call:sync", f"voice-sync burst of a voice call that is being transmitted whole (header delivered, no fault) labelled {label}, expected A "
+                      f"(tracker was {type0})")
+                air_st["chain"] = "A"
+            elif air_st and cls == "ve" and air_st["chain"]:
+                want = NEXT_LABEL[air_st["chain"]]
+                if label != want:
+                    V("C08.5 voice-labels", "whole-call:" + air_st["chain"] + "->" + want, f"voice burst after {air_st['chain']} inside a voice call that is being transmitted whole labelled "
+                      f"{label}, expected {want} (tracker was {type0})")
+                air_st["chain"] = want if label == want else None
         if type0 == "VoiceTransmission" and cls == "vs":
             st["sync_seen"] = True
             if label != "A":
